@@ -8,8 +8,8 @@ DOMAIN = {
     "b": [None, -1, 0, 1, 2, 7],
     "c": [None, -3, 0, 2, 7],
     "s": [None, "", "a", "ab", "b%", "a_c", "o'x", "x\\y", " pad ", "abcabc", "bc", "a%41b", "a+b",
-          "e\u0301"],
-    "u": [None, "", "a", "b", "c", "ab", "%", "_", "o'x", "a\\nb", "&amp;"],
+          "e\u0301", "P1D", "true", "(a"],
+    "u": [None, "", "a", "b", "c", "ab", "%", "_", "o'x", "a\\nb", "&amp;", "null", "1.5"],
     "d": [None, dt.datetime(2020, 1, 1, 0, 0, 0), dt.datetime(2019, 12, 31, 23, 59, 59),
           dt.datetime(2021, 6, 15, 12, 30, 45), dt.datetime(2000, 2, 29, 6, 7, 8),
           dt.datetime(1, 1, 1, 0, 0, 0), dt.datetime(9999, 12, 31, 23, 59, 59)],
